@@ -282,6 +282,7 @@ def overlap_cases(prop, rng, tier):
         "C11": [("ASlatest", "GS"), ("ASlatest", "AVlatest"), ("ASlatest", "ASlatest")],
         "C01": [("AVlatest", "AVlatest"), ("AVnew", "AVnew")],
         "C10": [("ASv1", "ASv2"), ("ASv1", "ASv3"), ("ASv2", "ASv3"), ("ASv3", "AVlatest4")],
+        "C18": [("ASv1", "ASv2"), ("ASv1", "ASv3"), ("ASv2", "ASv3")],
     }[prop]
     scheds = [list(s) for s in itertools.product("01", repeat=4)] if tier == "thorough" else \
              [list("0011"), list("0101"), list("0110"), list("1001"), list("0001"), list("1000"), list("0100")]
@@ -340,7 +341,9 @@ def overlap_oracle(prop, case, trace, backend):
                     fails.append(f"GetChildVersion answered gone although an AddVersion on that parent is accepted before and its child exists after {where}")
             if h.route == "gcv" and r.status >= 500:
                 fails.append(f"GetChildVersion answered {r.status} {where}")
-    if prop == "C10":
+    if prop in ("C10", "C18"):
+        # (C18: the upload for the older version is a DECLINED one in every one-at-a-time order in which
+        # it comes second, and a replaced one when it comes first: either way it does not survive)
         # both uploads were acceptable when the overlap began (no snapshot yet, both within the five
         # most recent): whatever the order, the stored snapshot must end up on the NEWER version
         d = dumps[0] if dumps else None
